@@ -152,6 +152,63 @@ class Repo:
                     self.modules[name] = Module(name, p, os.path.relpath(p, self.root), src)
                 except SyntaxError as e:
                     raise AnalysisError("E1", os.path.relpath(p, self.root), f"does not parse: {e}")
+        self._fold_named_constants()
+
+    # ----------------------------------------------------------------------------------------
+    def _fold_named_constants(self):
+        """Reads of *simple named constants* — a module-level name bound exactly once, at module level, to a str / int /
+        float / bytes literal (`PATH_COLUMN = 5`, `TAG_SN = "SN"`, `INDEX_SUFFIX = ".gvi"`), also through
+        `from mod import NAME` and `alias.NAME` — are replaced by the literal inside every function body, so that a rule
+        sees `fields[5]` whether or not the 5 has been given a name.  Names that a function rebinds are left alone there."""
+        simple = {}
+        for mname, mod in self.modules.items():
+            counts = {}
+            for st in ast.walk(mod.tree):
+                for t in ([st.target] if isinstance(st, (ast.AugAssign, ast.AnnAssign, ast.For)) else (st.targets if isinstance(st, ast.Assign) else [])):
+                    for x in ast.walk(t):
+                        if isinstance(x, ast.Name):
+                            counts[x.id] = counts.get(x.id, 0) + 1
+            table = {}
+            for name, e in mod.consts.items():
+                v = e
+                if isinstance(v, ast.UnaryOp) and isinstance(v.op, ast.USub) and isinstance(v.operand, ast.Constant) and isinstance(v.operand.value, (int, float)):
+                    v = ast.Constant(value=-v.operand.value)
+                if isinstance(v, ast.Constant) and isinstance(v.value, (str, int, float, bytes)) and not isinstance(v.value, bool) and counts.get(name, 0) == 1:
+                    table[name] = v.value
+            simple[mname] = table
+        for mname, mod in self.modules.items():
+            visible = dict(simple[mname])
+            dotted = {}
+            for local, tgt in mod.imports.items():
+                if tgt in self.modules:
+                    for k, v in simple[tgt].items():
+                        dotted[(local, k)] = v
+                elif "." in tgt:
+                    m_, n_ = tgt.rsplit(".", 1)
+                    if m_ in self.modules and n_ in simple[m_] and local not in visible:
+                        visible[local] = simple[m_][n_]
+            if not visible and not dotted:
+                continue
+            for f in mod.funcs.values():
+                shadow = {x.id for x in ast.walk(f.node) if isinstance(x, ast.Name) and isinstance(x.ctx, (ast.Store, ast.Del))} | set(f.params)
+                if f.parent is not None:
+                    shadow |= {x.id for x in ast.walk(f.parent.node) if isinstance(x, ast.Name) and isinstance(x.ctx, ast.Store)} | set(f.parent.params)
+
+                class T(ast.NodeTransformer):
+                    def visit_Name(self, node):
+                        if isinstance(node.ctx, ast.Load) and node.id in visible and node.id not in shadow:
+                            return ast.copy_location(ast.Constant(value=visible[node.id]), node)
+                        return node
+
+                    def visit_Attribute(self, node):
+                        if isinstance(node.ctx, ast.Load) and isinstance(node.value, ast.Name) and (node.value.id, node.attr) in dotted and node.value.id not in shadow:
+                            return ast.copy_location(ast.Constant(value=dotted[(node.value.id, node.attr)]), node)
+                        return self.generic_visit(node)
+
+                for i, st in enumerate(f.node.body):
+                    if not isinstance(st, (ast.FunctionDef, ast.AsyncFunctionDef, ast.ClassDef)):
+                        f.node.body[i] = T().visit(st)
+                ast.fix_missing_locations(f.node)
 
     # -- lookup ------------------------------------------------------------------------------
     def module(self, name, rule="E1") -> Module:
